@@ -332,7 +332,7 @@ def m_vec_into_iter(ctx):
     v = ctx.deref(ctx.args[0])
     mode = 'kvval' if isinstance(v, Lazy) and re.search(r'Map<', ctx.callee) else 'val'
     return ctx.ret(mk_iter(ctx.eng, ctx.st, v, mode))
-@model(r'^(?:indexmap::)?IndexMap::<.*>::(iter|iter_mut|keys|values|values_mut)$|^<&(?:mut )?(?:indexmap::)?IndexMap<.*> as IntoIterator>::into_iter$|^(?:std::collections::)?HashMap::<.*>::(iter|iter_mut|keys|values|values_mut)$|^<&(?:mut )?(?:std::collections::)?HashMap<.*> as IntoIterator>::into_iter$|^(?:std::collections::)?BTreeMap::<.*>::(iter|keys|values)$')
+@model(r'^(?:indexmap::|wasmparser::collections::)?IndexMap::<.*>::(iter|iter_mut|keys|values|values_mut)$|^<&(?:mut )?(?:indexmap::|wasmparser::collections::)?IndexMap<.*> as IntoIterator>::into_iter$|^(?:std::collections::)?HashMap::<.*>::(iter|iter_mut|keys|values|values_mut)$|^<&(?:mut )?(?:std::collections::)?HashMap<.*> as IntoIterator>::into_iter$|^(?:std::collections::)?BTreeMap::<.*>::(iter|keys|values)$')
 def m_map_iter(ctx):
     r = ctx.args[0]; v = ctx.deref(r)
     m = re.search(r'::(iter|iter_mut|keys|values|values_mut)$', ctx.callee)
@@ -400,16 +400,24 @@ def drain(eng, st, fr, it, acc, step, done):
 def m_collect(ctx):
     tgt_ty = re.search(r'as Iterator>::collect::<(.*)>$', ctx.callee, re.S).group(1)
     it = it_of(ctx, ctx.args[0]); dst, tgt = ctx.dst, ctx.tgt; eng = ctx.eng
+    # collect::<Result<C, E>>: stop at the first Err item (the iterator is not advanced further), otherwise the Ok payloads are collected into C
+    mres = re.match(r'^(?:std::result::)?Result<(.*)>$', tgt_ty, re.S)
+    inner_ty = split_top(mres.group(1))[0].strip() if mres else tgt_ty
+    def build(st, fr, acc, wrap):
+        if re.match(r'^(?:std::vec::)?Vec<', inner_ty): return _finish(eng, st, fr, dst, tgt, wrap(VecV(acc)))
+        if re.match(r'^(?:indexmap::)?IndexMap<|^(?:std::collections::)?HashMap<', inner_ty):
+            return build_map(eng, st, fr, acc, MapV((), 'HashMap' in inner_ty), lambda s2, f2, m: _finish(eng, s2, f2, dst, tgt, wrap(m)))
+        if re.match(r'^(?:indexmap::)?IndexSet<|^(?:std::collections::)?HashSet<', inner_ty):
+            return build_map(eng, st, fr, tuple(Agg((x, UNIT)) for x in acc), MapV((), 'HashSet' in inner_ty), lambda s2, f2, m: _finish(eng, s2, f2, dst, tgt, wrap(m)))
+        raise Unmodelled('collect into ' + tgt_ty)
+    if mres:
+        from .models import res_parts, ok as mk_ok, err as mk_err
+        def step(st, fr, acc, item, k):
+            is_ok, o, e = res_parts(Ctx(eng, st, fr, None, '', (), (), None), item)
+            return ('forks', [(is_ok, lambda s2, f2: k(s2, f2, acc + (o,))), (Not(is_ok), lambda s2, f2: _finish(eng, s2, f2, dst, tgt, mk_err(e)))])
+        return drain(eng, ctx.st, ctx.fr, it, (), step, lambda st, fr, acc: build(st, fr, acc, mk_ok))
     def step(st, fr, acc, item, k): return k(st, fr, acc + (item,))
-    def done(st, fr, acc):
-        if re.match(r'^(?:std::vec::)?Vec<', tgt_ty): v = VecV(acc)
-        elif re.match(r'^(?:indexmap::)?IndexMap<|^(?:std::collections::)?HashMap<', tgt_ty):
-            return build_map(eng, st, fr, acc, MapV((), 'HashMap' in tgt_ty), lambda s2, f2, m: _finish(eng, s2, f2, dst, tgt, m))
-        elif re.match(r'^(?:indexmap::)?IndexSet<|^(?:std::collections::)?HashSet<', tgt_ty):
-            return build_map(eng, st, fr, tuple(Agg((x, UNIT)) for x in acc), MapV((), 'HashSet' in tgt_ty), lambda s2, f2, m: _finish(eng, s2, f2, dst, tgt, m))
-        else: raise Unmodelled('collect into ' + tgt_ty)
-        return _finish(eng, st, fr, dst, tgt, v)
-    return drain(eng, ctx.st, ctx.fr, it, (), step, done)
+    return drain(eng, ctx.st, ctx.fr, it, (), step, lambda st, fr, acc: build(st, fr, acc, lambda x: x))
 
 def build_map(eng, st, fr, pairs, m, k):
     if not pairs: return k(st, fr, m)
@@ -609,7 +617,7 @@ def map_insert(eng, st, fr, m, key, val, after):
             acts.append((cond, hit))
     return ('forks', acts)
 
-MAPTY = r'(?:indexmap::(?:map::)?)?IndexMap|(?:std::collections::)?HashMap|(?:std::collections::(?:hash_map::)?)?HashMap|(?:std::collections::)?BTreeMap'
+MAPTY = r'(?:indexmap::(?:map::)?)?IndexMap|wasmparser::collections::IndexMap|wasmparser::collections::(?:index_map::)?IndexMap|(?:std::collections::)?HashMap|(?:std::collections::(?:hash_map::)?)?HashMap|(?:std::collections::)?BTreeMap'
 
 @model(r'^<(?:' + MAPTY + r'|(?:indexmap::)?IndexSet|(?:std::collections::)?HashSet|(?:std::collections::)?BTreeSet)<.*> as Default>::default$|^(?:' + MAPTY + r'|(?:indexmap::)?IndexSet|(?:std::collections::)?HashSet|(?:std::collections::)?BTreeSet)::<.*>::(?:new|with_capacity)$')
 def m_map_new(ctx):
